@@ -107,8 +107,23 @@ class Mutator:
             u = np.random.rand(self.n_particles, self.n_dim)
             x = np.array([self.prior_transform(u[i]) for i in range(self.n_particles)])
             logl, blobs = self.log_likelihood(x)
+            n_drawn = self.n_particles
+            # A batch without a single finite-likelihood draw cannot be stored (there is
+            # nothing to copy from): draw again.  The discarded draws still count, both as
+            # likelihood calls and in the supported-fraction estimate below.
+            while np.all(np.isinf(logl)):
+                if n_drawn >= 1000 * self.n_particles:
+                    raise ValueError(
+                        f"no prior draw with finite log-likelihood in {n_drawn} draws"
+                    )
+                u = np.random.rand(self.n_particles, self.n_dim)
+                x = np.array(
+                    [self.prior_transform(u[i]) for i in range(self.n_particles)]
+                )
+                logl, blobs = self.log_likelihood(x)
+                n_drawn += self.n_particles
             assignments = np.zeros(self.n_particles, dtype=int)
-            calls = self.state.get_current("calls") + self.n_particles
+            calls = self.state.get_current("calls") + n_drawn
 
             self.state.update_current(
                 {
@@ -126,11 +141,11 @@ class Mutator:
 
             # Resample prior particles with infinite likelihoods
             inf_logl_mask = np.isinf(logl)
-            if np.any(inf_logl_mask):
+            if np.any(inf_logl_mask) or n_drawn > self.n_particles:
                 all_idx = np.arange(len(x))
                 infinite_idx = all_idx[inf_logl_mask]
                 finite_idx = all_idx[~inf_logl_mask]
-                if len(finite_idx) > 0:
+                if len(infinite_idx) > 0:
                     idx = np.random.choice(
                         finite_idx, size=len(infinite_idx), replace=True
                     )
@@ -148,7 +163,7 @@ class Mutator:
 
                 # Correct logZ for fraction of prior with finite likelihood support
                 n_finite = len(finite_idx)
-                n_total = len(logl)
+                n_total = n_drawn
                 # (set, not added: at later warm-up iterations the current logz
                 # already estimates this fraction from the earlier batches)
                 logz = np.log(n_finite / n_total)
